@@ -1,1 +1,557 @@
-//! Lexical renderer: abstract document -> XML text (placeholder, filled in with C02)
+//! Lexical renderer: abstract document -> XML text, with every spelling choice
+//! drawn from the case source and the byte offset of every item recorded.
+//! The renderer, not xot, computes what the text denotes (`expected`).
+
+use crate::engine::Src;
+use crate::model::scope::{self, Scope};
+use crate::model::{AElem, ANode, QName, XML_NS};
+
+#[derive(Clone, Debug, PartialEq, Eq)]
+pub enum ItemKind {
+    ElementStart,
+    ElementEnd,
+    AttrName(QName),
+    AttrValue(QName),
+    Text,
+    Comment,
+    PiTarget,
+    PiContent,
+}
+
+#[derive(Clone, Debug)]
+pub struct SpanRec {
+    /// child-index path in the expected tree (root document = [])
+    pub path: Vec<usize>,
+    pub kind: ItemKind,
+    pub start: usize,
+    pub end: usize,
+}
+
+#[derive(Clone, Copy, Debug)]
+pub struct Style {
+    /// false = one canonical spelling (used where only the tree matters)
+    pub lexical: bool,
+    /// fragment renderings carry no XML declaration / BOM
+    pub fragment: bool,
+    /// allow CR / CRLF line ends and literal whitespace variants
+    pub line_ends: bool,
+    pub cdata: bool,
+    pub prolog: bool,
+}
+
+impl Style {
+    pub fn plain() -> Self {
+        Style { lexical: false, fragment: false, line_ends: false, cdata: false, prolog: false }
+    }
+    pub fn rich() -> Self {
+        Style { lexical: true, fragment: false, line_ends: true, cdata: true, prolog: true }
+    }
+}
+
+pub struct Rendered {
+    pub text: String,
+    pub spans: Vec<SpanRec>,
+    pub features: Vec<&'static str>,
+    /// the document the text denotes (a Document node)
+    pub expected: ANode,
+}
+
+struct R<'s, 'a> {
+    src: &'s mut Src<'a>,
+    st: Style,
+    out: String,
+    spans: Vec<SpanRec>,
+    features: Vec<&'static str>,
+}
+
+fn normalize_xml_id(v: &str) -> String {
+    // xml:id: leading/trailing spaces removed, runs of spaces collapsed
+    v.split(' ').filter(|p| !p.is_empty()).collect::<Vec<_>>().join(" ")
+}
+
+impl<'s, 'a> R<'s, 'a> {
+    fn feat(&mut self, f: &'static str) {
+        if !self.features.contains(&f) {
+            self.features.push(f);
+        }
+    }
+
+    fn ws(&mut self, required: bool) {
+        if !self.st.lexical {
+            if required {
+                self.out.push(' ');
+            }
+            return;
+        }
+        let opts: &[&str] = if self.st.line_ends {
+            &[" ", "\t", "\n", "\r\n", "\r", "  ", " \n "]
+        } else {
+            &[" ", "\t", "\n", "  "]
+        };
+        let w = [10, 2, 2, 2, 1, 2, 1];
+        if required {
+            let i = self.src.weighted(&w[..opts.len()]);
+            if i > 0 {
+                self.feat("in_tag_whitespace");
+            }
+            self.out.push_str(opts[i]);
+        } else if self.src.ratio(1, 5) {
+            let i = self.src.weighted(&w[..opts.len()]);
+            self.feat("in_tag_whitespace");
+            self.out.push_str(opts[i]);
+        }
+    }
+
+    fn charref(&mut self, c: char) {
+        self.feat("char_ref");
+        let code = c as u32;
+        match self.src.choice(4) {
+            0 => self.out.push_str(&format!("&#{};", code)),
+            1 => self.out.push_str(&format!("&#x{:x};", code)),
+            2 => self.out.push_str(&format!("&#x{:X};", code)),
+            _ => self.out.push_str(&format!("&#x00{:x};", code)),
+        }
+    }
+
+    fn entity_or_ref(&mut self, c: char) {
+        let name = match c {
+            '<' => "lt",
+            '&' => "amp",
+            '>' => "gt",
+            '"' => "quot",
+            '\'' => "apos",
+            _ => "",
+        };
+        if !name.is_empty() && (!self.st.lexical || self.src.ratio(2, 3)) {
+            if self.st.lexical {
+                self.feat("entity");
+            }
+            self.out.push('&');
+            self.out.push_str(name);
+            self.out.push(';');
+        } else {
+            self.charref(c);
+        }
+    }
+
+    /// write character data of a text node (one or more text / CDATA runs);
+    /// returns the span convention xot documents for merged runs
+    fn text(&mut self, s: &str) -> (usize, usize) {
+        let chars: Vec<char> = s.chars().collect();
+        let mut i = 0;
+        let mut first_start = None;
+        let mut last_end = self.out.len();
+        while i < chars.len() {
+            // choose run length and kind
+            let remaining = chars.len() - i;
+            let len = if self.st.lexical && self.st.cdata && remaining > 1 && self.src.ratio(1, 3) {
+                1 + self.src.choice(remaining.min(8))
+            } else {
+                remaining
+            };
+            let cdata = self.st.lexical && self.st.cdata && self.src.ratio(1, 4)
+                // CR cannot be represented inside CDATA
+                && !chars[i..i + len].contains(&'\r');
+            if cdata {
+                // a CDATA run must not contain "]]>" : cut the run before the '>' of such a sequence
+                let mut l = len;
+                for k in 0..len {
+                    if k >= 2 && chars[i + k] == '>' && chars[i + k - 1] == ']' && chars[i + k - 2] == ']' {
+                        l = k;
+                        break;
+                    }
+                }
+                // and must not end with "]]" followed by '>' in the next run (fine: next run is separate markup)
+                if l == 0 {
+                    // cannot start a CDATA run here; fall through to a text run of one char
+                    let st = self.out.len();
+                    self.text_run(&chars[i..i + 1], i == 0, &chars[..i]);
+                    first_start.get_or_insert(st);
+                    last_end = self.out.len();
+                    i += 1;
+                    continue;
+                }
+                self.feat("cdata");
+                self.out.push_str("<![CDATA[");
+                let st = self.out.len();
+                for &c in &chars[i..i + l] {
+                    if c == '\n' && self.st.line_ends {
+                        match self.src.weighted(&[6, 2, 2]) {
+                            0 => self.out.push('\n'),
+                            1 => {
+                                self.feat("cr_line_end_in_cdata");
+                                self.out.push('\r')
+                            }
+                            _ => {
+                                self.feat("crlf_line_end_in_cdata");
+                                self.out.push_str("\r\n")
+                            }
+                        }
+                    } else {
+                        self.out.push(c);
+                    }
+                }
+                first_start.get_or_insert(st);
+                last_end = self.out.len();
+                self.out.push_str("]]>");
+                i += l;
+            } else {
+                let st = self.out.len();
+                self.text_run(&chars[i..i + len], i == 0, &chars[..i]);
+                first_start.get_or_insert(st);
+                last_end = self.out.len();
+                i += len;
+            }
+        }
+        (first_start.unwrap_or(last_end), last_end)
+    }
+
+    fn text_run(&mut self, run: &[char], _first: bool, before: &[char]) {
+        let mut prev2: Vec<char> = before.iter().rev().take(2).rev().copied().collect();
+        for &c in run {
+            let after_brackets = prev2.len() == 2 && prev2[0] == ']' && prev2[1] == ']';
+            match c {
+                '<' | '&' => self.entity_or_ref(c),
+                '>' => {
+                    if after_brackets || !self.st.lexical || self.src.bool() {
+                        self.entity_or_ref('>');
+                    } else {
+                        self.feat("raw_gt");
+                        self.out.push('>');
+                    }
+                }
+                '\r' => self.charref('\r'),
+                '\n' => {
+                    if self.st.lexical && self.st.line_ends {
+                        match self.src.weighted(&[6, 2, 2, 1]) {
+                            0 => self.out.push('\n'),
+                            1 => {
+                                self.feat("cr_line_end");
+                                self.out.push('\r')
+                            }
+                            2 => {
+                                self.feat("crlf_line_end");
+                                self.out.push_str("\r\n")
+                            }
+                            _ => self.charref('\n'),
+                        }
+                    } else {
+                        self.out.push('\n');
+                    }
+                }
+                _ => {
+                    if self.st.lexical && self.src.ratio(1, 12) {
+                        self.charref(c);
+                    } else {
+                        self.out.push(c);
+                    }
+                }
+            }
+            if prev2.len() == 2 {
+                prev2.remove(0);
+            }
+            prev2.push(c);
+        }
+    }
+
+    fn attr_value(&mut self, v: &str, literal_ws_ok: bool) -> (usize, usize) {
+        let q = if self.st.lexical && self.src.bool() {
+            self.feat("single_quote");
+            '\''
+        } else {
+            '"'
+        };
+        self.out.push(q);
+        let st = self.out.len();
+        for c in v.chars() {
+            match c {
+                '<' | '&' => self.entity_or_ref(c),
+                '"' | '\'' => {
+                    if c == q || !self.st.lexical || self.src.bool() {
+                        self.entity_or_ref(c);
+                    } else {
+                        self.out.push(c);
+                    }
+                }
+                '\t' | '\n' | '\r' => self.charref(c),
+                ' ' => {
+                    if self.st.lexical && self.st.line_ends && literal_ws_ok && self.src.ratio(1, 4) {
+                        // literal white space is normalised to a space by the parser
+                        self.feat("literal_ws_in_attribute");
+                        let w = ["\t", "\n", "\r", "\r\n"][self.src.choice(4)];
+                        self.out.push_str(w);
+                    } else {
+                        self.out.push(' ');
+                    }
+                }
+                '>' => {
+                    if self.st.lexical && self.src.bool() {
+                        self.entity_or_ref('>');
+                    } else {
+                        self.out.push('>');
+                    }
+                }
+                _ => {
+                    if self.st.lexical && self.src.ratio(1, 12) {
+                        self.charref(c);
+                    } else {
+                        self.out.push(c);
+                    }
+                }
+            }
+        }
+        let en = self.out.len();
+        self.out.push(q);
+        (st, en)
+    }
+
+    fn qname(&mut self, q: &QName, sc: &Scope, attribute: bool) -> Result<String, String> {
+        if q.ns.is_empty() {
+            if !attribute && sc.get("").is_some() {
+                return Err(format!("cannot spell no-namespace element {} under a default namespace", q.local));
+            }
+            return Ok(q.local.clone());
+        }
+        let mut cands: Vec<String> = scope::prefixes_for(sc, &q.ns);
+        if attribute {
+            cands.retain(|p| !p.is_empty());
+        }
+        if cands.is_empty() {
+            return Err(format!("no usable prefix for {}", q.show()));
+        }
+        let p = if self.st.lexical && cands.len() > 1 {
+            self.feat("alias_prefix_choice");
+            cands[self.src.choice(cands.len())].clone()
+        } else {
+            // canonical: default prefix if possible, else the first
+            cands.iter().find(|p| p.is_empty()).cloned().unwrap_or_else(|| cands[0].clone())
+        };
+        Ok(if p.is_empty() { q.local.clone() } else { format!("{}:{}", p, q.local) })
+    }
+
+    fn element(&mut self, e: &AElem, parent_scope: &Scope, path: &[usize]) -> Result<ANode, String> {
+        let sc = scope::push(parent_scope, &e.decls);
+        if e.decls.iter().any(|(p, _)| parent_scope.get(p).is_some()) {
+            self.feat("shadowing");
+        }
+        let name = self.qname(&e.name, &sc, false)?;
+        self.out.push('<');
+        let s0 = self.out.len();
+        self.out.push_str(&name);
+        self.spans.push(SpanRec { path: path.to_vec(), kind: ItemKind::ElementStart, start: s0, end: self.out.len() });
+        // declarations and attributes interleaved, relative order within each kind kept
+        let mut di = 0;
+        let mut ai = 0;
+        let mut exp_attrs = vec![];
+        while di < e.decls.len() || ai < e.attrs.len() {
+            let take_decl = if di >= e.decls.len() {
+                false
+            } else if ai >= e.attrs.len() {
+                true
+            } else if self.st.lexical {
+                let b = self.src.ratio(2, 3);
+                if !b {
+                    self.feat("attribute_before_declaration");
+                }
+                b
+            } else {
+                true
+            };
+            self.ws(true);
+            if take_decl {
+                let (p, u) = &e.decls[di];
+                di += 1;
+                if p.is_empty() {
+                    self.out.push_str("xmlns");
+                } else {
+                    self.out.push_str("xmlns:");
+                    self.out.push_str(p);
+                }
+                self.ws(false);
+                self.out.push('=');
+                self.ws(false);
+                self.attr_value(u, false);
+            } else {
+                let (q, v) = &e.attrs[ai];
+                ai += 1;
+                let an = self.qname(q, &sc, true)?;
+                let n0 = self.out.len();
+                self.out.push_str(&an);
+                self.spans.push(SpanRec { path: path.to_vec(), kind: ItemKind::AttrName(q.clone()), start: n0, end: self.out.len() });
+                self.ws(false);
+                self.out.push('=');
+                self.ws(false);
+                let is_id = q.ns == XML_NS && q.local == "id";
+                let (v0, v1) = self.attr_value(v, !is_id);
+                self.spans.push(SpanRec { path: path.to_vec(), kind: ItemKind::AttrValue(q.clone()), start: v0, end: v1 });
+                let ev = if is_id {
+                    let n = normalize_xml_id(v);
+                    if n != *v {
+                        self.feat("xml_id_spaces");
+                    }
+                    n
+                } else {
+                    v.clone()
+                };
+                exp_attrs.push((q.clone(), ev));
+            }
+        }
+        let mut exp_children = vec![];
+        let empty_cdata = e.children.is_empty() && self.st.lexical && self.st.cdata && self.src.ratio(1, 10);
+        if e.children.is_empty() && !empty_cdata && (!self.st.lexical || self.src.ratio(2, 3)) {
+            self.ws(false);
+            let s = self.out.len();
+            self.out.push_str("/>");
+            self.spans.push(SpanRec { path: path.to_vec(), kind: ItemKind::ElementEnd, start: s, end: self.out.len() });
+        } else {
+            if e.children.is_empty() {
+                self.feat("explicit_end_tag_for_empty");
+            }
+            self.ws(false);
+            self.out.push('>');
+            if empty_cdata {
+                self.feat("empty_cdata");
+                self.out.push_str("<![CDATA[]]>");
+            }
+            self.children(&e.children, &sc, path, &mut exp_children)?;
+            let s = self.out.len();
+            self.out.push_str("</");
+            self.out.push_str(&name);
+            self.ws(false);
+            self.out.push('>');
+            self.spans.push(SpanRec { path: path.to_vec(), kind: ItemKind::ElementEnd, start: s, end: self.out.len() });
+        }
+        Ok(ANode::Element(AElem {
+            name: e.name.clone(),
+            decls: e.decls.clone(),
+            attrs: exp_attrs,
+            children: exp_children,
+        }))
+    }
+
+    fn children(&mut self, ch: &[ANode], sc: &Scope, path: &[usize], exp: &mut Vec<ANode>) -> Result<(), String> {
+        for c in ch {
+            let mut p = path.to_vec();
+            p.push(exp.len());
+            match c {
+                ANode::Element(e) => {
+                    let n = self.element(e, sc, &p)?;
+                    exp.push(n);
+                }
+                ANode::Text(t) => {
+                    if t.is_empty() {
+                        continue;
+                    }
+                    let (s, e) = self.text(t);
+                    if let Some(ANode::Text(prev)) = exp.last_mut() {
+                        // adjacent text in the source document: one node after parsing
+                        prev.push_str(t);
+                        let mut pp = path.to_vec();
+                        pp.push(exp.len() - 1);
+                        if let Some(sp) = self.spans.iter_mut().rev().find(|sp| sp.path == pp && sp.kind == ItemKind::Text) {
+                            sp.end = e;
+                        }
+                    } else {
+                        exp.push(ANode::Text(t.clone()));
+                        self.spans.push(SpanRec { path: p, kind: ItemKind::Text, start: s, end: e });
+                    }
+                }
+                ANode::Comment(t) => {
+                    self.out.push_str("<!--");
+                    let s = self.out.len();
+                    self.out.push_str(t);
+                    self.spans.push(SpanRec { path: p, kind: ItemKind::Comment, start: s, end: self.out.len() });
+                    self.out.push_str("-->");
+                    exp.push(c.clone());
+                }
+                ANode::PI(t, d) => {
+                    self.out.push_str("<?");
+                    let s = self.out.len();
+                    self.out.push_str(t);
+                    self.spans.push(SpanRec { path: p.clone(), kind: ItemKind::PiTarget, start: s, end: self.out.len() });
+                    match d {
+                        Some(d) => {
+                            self.ws(true);
+                            let s = self.out.len();
+                            self.out.push_str(d);
+                            self.spans.push(SpanRec { path: p, kind: ItemKind::PiContent, start: s, end: self.out.len() });
+                        }
+                        None => {
+                            if self.st.lexical && self.src.ratio(1, 6) {
+                                self.out.push(' ');
+                            }
+                        }
+                    }
+                    self.out.push_str("?>");
+                    exp.push(c.clone());
+                }
+                other => return Err(format!("cannot render {:?} as content", other)),
+            }
+        }
+        Ok(())
+    }
+}
+
+/// Render a Document (well-formed document or fragment) or a single element.
+pub fn render(src: &mut Src, doc: &ANode, st: Style) -> Result<Rendered, String> {
+    let mut r = R { src, st, out: String::new(), spans: vec![], features: vec![] };
+    let base = scope::base_scope();
+    let expected = match doc {
+        ANode::Document(ch) => {
+            if !st.fragment && st.lexical && st.prolog {
+                if r.src.ratio(1, 8) {
+                    r.feat("bom");
+                    r.out.push('\u{feff}');
+                }
+                if r.src.ratio(1, 3) {
+                    r.feat("xml_declaration");
+                    let q = if r.src.bool() { '"' } else { '\'' };
+                    r.out.push_str(&format!("<?xml version={}1.0{}", q, q));
+                    if r.src.bool() {
+                        let enc = ["UTF-8", "utf-8", "UTF-8"][r.src.choice(3)];
+                        r.out.push_str(&format!(" encoding={}{}{}", q, enc, q));
+                    }
+                    if r.src.ratio(1, 3) {
+                        r.out.push_str(&format!(" standalone={}{}{}", q, ["yes", "no"][r.src.choice(2)], q));
+                    }
+                    if r.src.ratio(1, 4) {
+                        r.out.push(' ');
+                    }
+                    r.out.push_str("?>");
+                }
+            }
+            let mut exp = vec![];
+            if st.fragment {
+                r.children(ch, &base, &[], &mut exp)?;
+            } else {
+                // top-level items of a document may be separated by white space
+                for c in ch {
+                    if st.lexical && r.src.ratio(1, 4) {
+                        r.feat("top_level_whitespace");
+                        let w = [" ", "\n", "\r\n", "\t"][r.src.choice(4)];
+                        r.out.push_str(w);
+                    }
+                    r.children(std::slice::from_ref(c), &base, &[], &mut exp)?;
+                }
+                if st.lexical && r.src.ratio(1, 4) {
+                    r.feat("top_level_whitespace");
+                    r.out.push('\n');
+                }
+            }
+            ANode::Document(exp)
+        }
+        ANode::Element(e) => {
+            let n = r.element(e, &base, &[0])?;
+            ANode::Document(vec![n])
+        }
+        other => return Err(format!("cannot render {:?}", other)),
+    };
+    Ok(Rendered { text: r.out, spans: r.spans, features: r.features, expected })
+}
+
+/// canonical rendering with no random choices
+pub fn render_plain(doc: &ANode, fragment: bool) -> Result<String, String> {
+    let mut src = Src::from_bytes(&[]);
+    let st = Style { fragment, ..Style::plain() };
+    render(&mut src, doc, st).map(|r| r.text)
+}
